@@ -125,3 +125,9 @@ OPAQUE_DEFAULT = {
     "nixio.util.find:_find_sections": ("list", ("obj", "Section")),
     "nixio.util.find:_find_sources": ("list", ("obj", "Source")),
 }
+
+# unit symbols the unit grammar has to know (SI base and derived units with special names, plus the non-SI units accepted for
+# use with the SI that NIX files use: litre in both spellings, percent, decibel) -- written from the SI brochure, not from the code
+SI_UNIT_SYMBOLS = {"m", "g", "s", "A", "K", "mol", "cd",
+                   "Hz", "N", "Pa", "J", "W", "C", "V", "F", "Ohm", "S", "Wb", "T", "H", "lm", "lx", "Bq", "Gy", "Sv", "kat", "rad",
+                   "l", "L", "%", "dB"}
